@@ -895,8 +895,14 @@ func (s *clientSocket) onClose(reason Reason) {
 	s.debug.Log("Going to close the socket. Reason", reason)
 
 	s.stateMu.Lock()
+	alreadyDisconnected := s.state == clientSocketConnStateDisconnected
 	s.state = clientSocketConnStateDisconnected
 	s.stateMu.Unlock()
+	// The end of a connection can reach the socket more than once: for example a DISCONNECT packet
+	// from the server, followed by the closing of the connection. Report it only once.
+	if alreadyDisconnected {
+		return
+	}
 	s.setID("")
 	s.disconnectHandlers.forEach(func(handler *ClientSocketDisconnectFunc) { (*handler)(reason) }, true)
 }
